@@ -6,7 +6,7 @@ PROPS = ["Props/C03.v", "Props/C01.v", "Props/C06.v"]
 
 def run(ctx):
     schedcheck.run(ctx, "C03", PROPS,
-                   [("subslot", 200, 2000), ("core", 60, 600), ("alap", 60, 500), ("alapcore", 60, 500), ("sd", 100, 1000), ("sdteam", 80, 800), ("limits", 40, 300)],
+                   [("subslot", 200, 2000), ("core", 60, 600), ("alap", 60, 500), ("alapcore", 60, 500), ("sd", 100, 1000), ("sdteam", 80, 800), ("limits", 40, 300), ("teamlimits", 80, 700)],
                    ["c03"],
                    ["a team is credited per slot with its most efficient member (the code's stated rule); equality is checked to the one-second rounding of reported times",
                     "the theorems cover the cell discipline (kept = min(need, booked), Props/C01) and the whole-slot frame (Props/C06); the efficiency arithmetic itself is checked on the implementation by the oracle"],
